@@ -65,7 +65,7 @@ class VOpts:
         in_decl=['bus_desc', 'bus_asc', 'bus_mixed', 'bus_off'], wire_decl=['bus'], out_ref=['whole'], out_decl=['bus_desc', 'bus_asc'], port_order=[1, 2, 3],
         stmt_order=['inst_first', 'interleaved', 'inst_reversed'], pin_order=['rev', 'out_first'], out_style=['assign'],
         escape=[True], noise=['line_comment', 'block_comment', 'star_comment', 'attribute', 'star_attribute', 'tabs_newlines', 'crlf'], redeclare=[True],
-        const_style=['bus', 'bus4h', 'bus3d'], const_spelling=['h', 'd', 'B', 'H', 'D'], open_pin=['empty'], assign_order=['rev'], alias_chain=[True, 'rev'], concat_assign=[True],
+        const_style=['bus', 'bus4h', 'bus3d'], const_spelling=['h', 'd', 'B', 'H', 'D'], open_pin=['empty'], assign_order=['rev'], alias_chain=[True, 'rev'], concat_assign=[True, 'vec_rhs', 'vec_lhs'],
     )
 
     def __init__(self, **kw):
@@ -93,6 +93,9 @@ def verilog(nl, cmap, dffcell, opts, const_gate_inputs=None):
     Inputs are named i<k> (or bits of bus i), outputs o<j> (or bits of bus o), a clock input 'clk' if there are states.
     A None operand is an open pin; an operand 'c0'/'c1' is a constant."""
     nI, nO = nl.n_in, len(nl.outs)
+    if (opts.concat_assign or opts.out_ref == 'whole') and opts.out_decl == 'scalar':
+        # these two deviations only exist for an output bus: they imply the (descending) bus declaration
+        opts = VOpts(**dict(opts.__dict__, out_decl='bus_desc'))
     esc = (lambda s: '\\' + s + '.x ') if opts.escape else (lambda s: s)
     # ---- names
     def in_name(k):
@@ -202,7 +205,22 @@ def verilog(nl, cmap, dffcell, opts, const_gate_inputs=None):
     pending = [(j, s) for j, s in enumerate(nl.outs) if direct.get(s) != j]
     if opts.concat_assign and nO >= 2 and opts.out_decl != 'scalar':
         order = range(nO - 1, -1, -1) if opts.out_decl == 'bus_desc' else range(nO)
-        out_assign.append('assign o = {' + ', '.join(sig_name[nl.outs[j]] for j in order) + '};')
+        order = list(order)
+        if opts.concat_assign is True:
+            out_assign.append('assign o = {' + ', '.join(sig_name[nl.outs[j]] for j in order) + '};')
+        else:
+            # whole (unindexed) vectors inside the concatenation: cv carries all but the last position, xw the last one
+            m = nO - 1
+            decl.append((f'wire [{m - 1}:0] cv;' if opts.out_decl == 'bus_desc' else f'wire [0:{m - 1}] cv;') + ' wire xw;')
+            cvbits = [f'cv[{b}]' for b in (range(m - 1, -1, -1) if opts.out_decl == 'bus_desc' else range(m))]
+            if opts.concat_assign == 'vec_rhs':
+                out_assign += [f'assign {cvbits[t]} = {sig_name[nl.outs[order[t]]]};' for t in range(m)]
+                out_assign.append(f'assign xw = {sig_name[nl.outs[order[m]]]};')
+                out_assign.append('assign o = {cv, xw};')
+            else:   # vec_lhs
+                out_assign.append('assign {cv, xw} = {' + ', '.join(sig_name[nl.outs[j]] for j in order) + '};')
+                out_assign += [f'assign {out_name(order[t])} = {cvbits[t]};' for t in range(m)]
+                out_assign.append(f'assign {out_name(order[m])} = xw;')
         pending = []
     for j, s in pending:
         if opts.alias_chain and j == 0:
